@@ -31,6 +31,9 @@ type NodeCfg struct {
 	Budget int       `json:"budget"`           // messages handled per activation
 	Rewake uint64    `json:"rewake,omitempty"` // ed: 0 = wake again at the same instant, else after this many ps
 	Ports  []PortCfg `json:"ports"`
+	// Dwell (ticking nodes): after a tick that handled a message the node
+	// reports progress for this many further ticks without touching a port.
+	Dwell int `json:"dwell,omitempty"`
 	// Stalls are [from,to) windows in which the node leaves its inputs alone.
 	Stalls [][2]uint64 `json:"stalls,omitempty"`
 }
@@ -50,6 +53,9 @@ type KickCfg struct {
 	At   uint64 `json:"at"`
 	Node int    `json:"node"`
 	Now  bool   `json:"now,omitempty"` // TickNow instead of TickLater (ticking nodes)
+	// Late: the request is issued after every primary event that was already
+	// queued for that instant (the driver re-queues itself once).
+	Late bool `json:"late,omitempty"`
 }
 
 type Config struct {
@@ -71,8 +77,10 @@ type Packet struct {
 
 func (p Packet) clone() Packet {
 	q := p
-	q.Route = append([]Hop(nil), p.Route...)
-	q.Payload = append([]byte(nil), p.Payload...)
+	q.Route = make([]Hop, len(p.Route))
+	copy(q.Route, p.Route)
+	q.Payload = make([]byte, len(p.Payload)) // never nil: DeepEqual tells nil from empty
+	copy(q.Payload, p.Payload)
 	return q
 }
 
@@ -114,6 +122,13 @@ type State struct {
 	X int `json:"x"`
 }
 
+// SeenMsg is a message value observed by a port hook.
+type SeenMsg struct {
+	Seq  int // log sequence number of the matching EvRecvd / EvRetrIn
+	Port int
+	Msg  messaging.Msg
+}
+
 type PortInfo struct {
 	Idx, Node, Conn int
 	Port            messaging.Port
@@ -131,6 +146,7 @@ type Node struct {
 	byConn  map[int]*PortInfo
 	pending []int // indexes into Config.Inj, in injection-time order
 	rr      int
+	dwell   int
 	// Consumed lists the flows that ended here, in order.
 	Consumed []int
 }
@@ -144,7 +160,12 @@ type World struct {
 	PortByNm map[messaging.RemotePort]*PortInfo
 	Log      []Ev
 	// Sent holds a private deep copy of every message handed to Send, by id.
-	Sent   map[uint64]Packet
+	Sent map[uint64]Packet
+	// KeepMsgs makes the port hooks keep the message values they see at
+	// delivery (Recvd) and at retrieval by the owner (RetrIn), in log order.
+	KeepMsgs  bool
+	Delivered []SeenMsg
+	Retrieved []SeenMsg
 	nextID uint64
 	names  map[string]int
 }
@@ -203,8 +224,14 @@ func (h *portHook) Func(ctx hooking.HookCtx) {
 	case messaging.HookPosPortMsgSend:
 		h.w.log(EvSend, -1, h.p, id, false)
 	case messaging.HookPosPortMsgRecvd:
+		if h.w.KeepMsgs {
+			h.w.Delivered = append(h.w.Delivered, SeenMsg{Seq: len(h.w.Log), Port: h.p, Msg: msg})
+		}
 		h.w.log(EvRecvd, -1, h.p, id, false)
 	case messaging.HookPosPortMsgRetrieveIncoming:
+		if h.w.KeepMsgs {
+			h.w.Retrieved = append(h.w.Retrieved, SeenMsg{Seq: len(h.w.Log), Port: h.p, Msg: msg})
+		}
 		h.w.log(EvRetrIn, -1, h.p, id, false)
 	case messaging.HookPosPortMsgRetrieveOutgoing:
 		h.w.log(EvRetrOut, -1, h.p, id, false)
@@ -238,8 +265,9 @@ func (h *engineHook) Func(ctx hooking.HookCtx) {
 
 type driverEvent struct {
 	timing.EventBase
-	Kind string
-	Idx  int
+	Kind     string
+	Idx      int
+	Requeued bool
 }
 
 type driver struct{ w *World }
@@ -260,6 +288,12 @@ func (d *driver) Handle(e timing.Event) error {
 		}
 	case "kick":
 		k := w.Cfg.Kicks[de.Idx]
+		if k.Late && !de.Requeued {
+			de.Requeued = true
+			de.EventBase = timing.MakeEventBase(de.Time(), "Driver")
+			w.Engine.Schedule(de)
+			return nil
+		}
 		n := w.Nodes[k.Node]
 		w.log(EvKick, k.Node, -1, 0, k.Now)
 		if k.Now {
@@ -275,6 +309,12 @@ type tickMW struct{ n *Node }
 
 func (m *tickMW) Tick() bool {
 	p := m.n.step(uint64(m.n.w.Engine.CurrentTime()))
+	if p {
+		m.n.dwell = m.n.Cfg.Dwell
+	} else if m.n.dwell > 0 {
+		m.n.dwell--
+		p = true
+	}
 	m.n.w.log(EvStep, m.n.Idx, -1, 0, p)
 	return p
 }
@@ -389,8 +429,18 @@ func (n *Node) NextHopOut(pk Packet) *PortInfo {
 	return n.byConn[pk.Route[pk.HopIdx+1].Via]
 }
 
-// PendingDue reports the number of injections not yet sent.
+// PendingInjections reports the number of injections not yet sent.
 func (n *Node) PendingInjections() int { return len(n.pending) }
+
+// HeadInjectionSendable reports whether the oldest unsent injection is due
+// and its outgoing port has room.
+func (n *Node) HeadInjectionSendable() bool {
+	if len(n.pending) == 0 {
+		return false
+	}
+	inj := n.w.Cfg.Inj[n.pending[0]]
+	return inj.At <= uint64(n.w.Engine.CurrentTime()) && n.byConn[inj.Route[1].Via].Port.CanSend()
+}
 
 // Build creates the topology. Nothing runs until Run.
 func Build(cfg Config) *World {
